@@ -222,8 +222,8 @@ class KexDH:  # pragma: nocover
             ca_key_type = ca_key_type_bytes.decode('ascii')
             self.out.d("Found CA type: [%s]" % ca_key_type)
 
-            # ED25519 CA's don't explicitly include the modulus size in the public key, since its fixed at 32 in all cases.
-            if ca_key_type == 'ssh-ed25519':
+            # ED25519 CA's don't explicitly include the modulus size in the public key, since its fixed at 32 in all cases.  (The same goes for a FIDO-backed ED25519 CA, whose blob continues with the application string, not with a modulus.)
+            if ca_key_type in ('ssh-ed25519', 'sk-ssh-ed25519@openssh.com'):
                 ca_key_n_len = 32
             else:
                 # CA's public key exponent.
@@ -236,7 +236,7 @@ class KexDH:  # pragma: nocover
                 if ca_key_type == 'ssh-rsa' and ca_key_n_len > 0:
                     self.__ca_n_bits = int(binascii.hexlify(ca_key_n), 16).bit_length()
 
-                if ca_key_type.startswith("ecdsa-sha2-nistp") and ca_key_n_len > 0:
+                if ca_key_type.startswith(("ecdsa-sha2-nistp", "sk-ecdsa-sha2-nistp")) and ca_key_n_len > 0:
                     self.out.d("Found ecdsa-sha2-nistp* CA key type.")
 
                     # 0x04 signifies that this is an uncompressed public key (meaning that full X and Y values are provided in ca_key_n.
@@ -245,7 +245,7 @@ class KexDH:  # pragma: nocover
                         ca_key_n_len = int(ca_key_n_len / 2)  # Divide by 2 since the modulus is the size of either the X or Y value.
 
                     # The key type names the curve, and hence the exact size (the P-521 coordinates occupy 66 bytes, which would otherwise be reported as 528 bits).
-                    curve_bits = ca_key_type[len("ecdsa-sha2-nistp"):]
+                    curve_bits = ca_key_type.split('@')[0][ca_key_type.index("nistp") + len("nistp"):]
                     if curve_bits.isdigit() and (int(curve_bits) + 7) // 8 == ca_key_n_len:
                         self.__ca_n_bits = int(curve_bits)
 
